@@ -41,12 +41,12 @@ res_apply=ok; git apply "$OUT/patch.diff" || res_apply=FAILED
 res_build=$(cargo build -p datasketches --offline 2>&1 | grep -c "^error")
 res_build_hooks=$(cargo build -p datasketches --features verif-hooks --offline 2>&1 | grep -c "^error")
 cp "$OUT/demo.rs" datasketches/tests/seeded_demo.rs
-demo_with=$(cargo test -p datasketches --offline --test seeded_demo 2>&1 | grep -E "^test result" | head -1)
+demo_with=$(cargo test -p datasketches --offline --features verif-hooks --test seeded_demo 2>&1 | grep -E "^test result" | head -1)
 rm datasketches/tests/seeded_demo.rs
 suite_with=$(cargo test -p datasketches --offline --no-fail-fast 2>&1 | grep -E "^test [a-z_:0-9A-Z]+ .*\.\.\. ok|^test .* - should panic \.\.\. ok" | wc -l)
 git apply -R "$OUT/patch.diff"
 cp "$OUT/demo.rs" datasketches/tests/seeded_demo.rs
-demo_without=$(cargo test -p datasketches --offline --test seeded_demo 2>&1 | grep -E "^test result" | head -1)
+demo_without=$(cargo test -p datasketches --offline --features verif-hooks --test seeded_demo 2>&1 | grep -E "^test result" | head -1)
 rm datasketches/tests/seeded_demo.rs
 suite_without=$(cargo test -p datasketches --offline --no-fail-fast 2>&1 | grep -E "^test [a-z_:0-9A-Z]+ .*\.\.\. ok|^test .* - should panic \.\.\. ok" | wc -l)
 cd /verif
